@@ -59,4 +59,23 @@ def handleSusp (fs : List (String × String)) : String := Id.run do
     else if k == 0 && firedAt != minT then bad := some s!"k0-not-minimum-from-start"
   return s!"{if agree then "agree" else "DISAGREE"} {match bad with | none => "ok" | some b => "BAD:" ++ b} nt={if count ≥ 1 then 1 else 0} br=susp-k{min k 4}-c{min count 3} {String.intercalate ";" notes.reverse}"
 
+/-- a refutation accepted while the expiry of the suspicion is being carried out: the member stays (at the refuting
+incarnation); with nothing in the window the expiry goes through -/
+def handleRace (fs : List (String × String)) : String :=
+  let inc := (getNat fs "inc").getD 0
+  let how := (getNat fs "how").getD 2
+  let st := (getInt fs "state").getD (-1)
+  let ginc := (getNat fs "ginc").getD 0
+  let listed := getD fs "listed" "0" == "1"
+  let hooked := getD fs "hooked" "0" == "1"
+  let refuted := how < 2 && hooked
+  let agree := if refuted then st == 0 && ginc == inc + 1 && listed else st == 2 && !listed
+  let bad : Option String :=
+    if !hooked then some "expiry-did-not-reach-its-log-statement(schedule-point-lost)"
+    else if refuted && (st != 0 || !listed) then
+      some s!"member-declared-dead-although-its-refutation-was-accepted-first:state={st}:incarnation={ginc}"
+    else if !refuted && listed then some "expired-suspicion-left-the-member-listed"
+    else none
+  s!"{if agree then "agree" else "DISAGREE"} {match bad with | none => "ok" | some b => "BAD:" ++ b} nt={if refuted then 1 else 0} br=race-how{how} "
+
 end Swim.Drv.C06
